@@ -66,6 +66,8 @@ def novers(e):
         return e
     if e and e[0] == "var":
         return ("var", e[1])
+    if e and e[0] == "param":
+        return e[:3]
     return tuple(novers(x) if isinstance(x, tuple) else x for x in e)
 
 
@@ -552,16 +554,39 @@ def _phi_site(body, val):
 
 
 # ------------------------------------------------------------------ canonical signatures
-def sig(e, params_positional=True):
+def sigv(e):
+    """like sig, but `&mut` parameters / variables carry the number of earlier writes (`$2@3`)"""
+    return sig(e, True, True)
+
+
+def sig(e, params_positional=True, versions=False):
+    if versions:
+        return _sig_versions(e)
+    return _sig(e, params_positional)
+
+
+def _sig_versions(e):
+    global _VERS
+    _VERS = True
+    try:
+        return _sig(e, True)
+    finally:
+        _VERS = False
+
+
+_VERS = False
+
+
+def _sig(e, params_positional=True):
     """canonical one-line rendering for provenance tables: parameters positional ($1..), variables by name
     without versions, callees by their last two path segments, newtype wrapping/`.0` kept."""
     if not isinstance(e, tuple):
         return repr(e)
     k = e[0]
     if k == "param":
-        return "$%d" % e[1] if params_positional else e[2]
+        return ("$%d" % e[1] if params_positional else e[2]) + ("@%d" % e[3] if _VERS and len(e) > 3 else "")
     if k == "var":
-        return e[1]
+        return e[1] + ("@%d" % e[2] if _VERS and len(e) > 2 and e[2] else "")
     if k == "upvar":
         return "^" + e[1].replace("_ref__", "")
     if k == "const":
@@ -573,29 +598,29 @@ def sig(e, params_positional=True):
     if k == "fn":
         return "fn:" + mir.short(e[1])
     if k == "field":
-        return "%s.%s" % (sig(e[1]), e[2])
+        return "%s.%s" % (_sig(e[1]), e[2])
     if k == "vfield":
-        return "(%s as %s).%s" % (sig(e[1]), e[2], e[3])
+        return "(%s as %s).%s" % (_sig(e[1]), e[2], e[3])
     if k == "call":
-        return "%s(%s)" % (mir.short(e[1]), ", ".join(sig(a) for a in e[2]))
+        return "%s(%s)" % (mir.short(e[1]), ", ".join(_sig(a) for a in e[2]))
     if k == "bin":
-        return "%s(%s, %s)" % (e[1], sig(e[2]), sig(e[3]))
+        return "%s(%s, %s)" % (e[1], _sig(e[2]), _sig(e[3]))
     if k == "un":
-        return "%s(%s)" % (e[1], sig(e[2]))
+        return "%s(%s)" % (e[1], _sig(e[2]))
     if k == "cast":
-        return "(%s as %s)" % (sig(e[1]), e[3])
+        return "(%s as %s)" % (_sig(e[1]), e[3])
     if k == "agg":
-        return "%s::%s{%s}" % (e[1].split("::")[-1], e[2], ", ".join("%s: %s" % (n, sig(v)) for n, v in e[3]))
+        return "%s::%s{%s}" % (e[1].split("::")[-1], e[2], ", ".join("%s: %s" % (n, _sig(v)) for n, v in e[3]))
     if k == "closure":
-        return "closure[%s]" % ", ".join("%s=%s" % (n.replace("_ref__", ""), sig(v)) for n, v in e[2])
+        return "closure[%s]" % ", ".join("%s=%s" % (n.replace("_ref__", ""), _sig(v)) for n, v in e[2])
     if k in ("tuple", "array"):
-        return "%s(%s)" % (k, ", ".join(sig(x) for x in e[1]))
+        return "%s(%s)" % (k, ", ".join(_sig(x) for x in e[1]))
     if k == "phi":
-        return "phi(%s)" % " | ".join(sorted(sig(x) for x in e[1]))
+        return "phi(%s)" % " | ".join(sorted(_sig(x) for x in e[1]))
     if k in ("try", "elem", "next", "branch", "discr", "mutated"):
-        return "%s(%s)" % (k, sig(e[1]))
+        return "%s(%s)" % (k, _sig(e[1]))
     if k == "index":
-        return "%s[%s]" % (sig(e[1]), sig(e[2]))
+        return "%s[%s]" % (_sig(e[1]), _sig(e[2]))
     if k == "unknown":
         return "?"
     return mir.show(e)
@@ -788,3 +813,21 @@ def abbrev(s, aliases):
 def var_sig(body, name):
     d = var_def_exprs(body, name)
     return sig(d[0][1]) if len(d) == 1 else None
+
+
+def closure_captures(parent, closure_nname):
+    """captured expressions of a closure constructed in `parent`: {upvar name: expr}"""
+    for bi, si, s in parent.iter_stmts():
+        if s["k"] == "assign" and s["rv"]["k"] == "agg" and s["rv"]["ak"] == "closure" and norm_name(s["rv"]["path"]) == closure_nname:
+            e = parent.rec_rvalue(s["rv"], bi, si)
+            return dict(e[2])
+    return {}
+
+
+def writes_in(body):
+    """all projected assignments in body: [(bb, idx, place_expr, value_expr)]"""
+    out = []
+    for bi, si, s in body.iter_stmts():
+        if s["k"] == "assign" and s["place"]["p"] and not s["exp"]:
+            out.append((bi, si, body.rec_place(s["place"], bi, si), body.rec_rvalue(s["rv"], bi, si)))
+    return out
